@@ -109,6 +109,12 @@ def _match(missing, new):
     return {n: o[0] for n, o in inv.items() if len(o) == 1}
 
 
+def _unrename(text, aren):
+    for new_, old_ in aren.items():
+        text = text.replace(new_, old_)
+    return text
+
+
 def detect(modules, ref):
     """(method/function renames {new: old}, field renames {new: old}) over the whole package"""
     cur = snapshot(modules)
@@ -142,6 +148,12 @@ def detect(modules, ref):
                 cands = [n for n, v in new_f if v == v_old]
                 if len(cands) == 1 and len([1 for n2, v2 in miss_f if v2 == v_old]) == 1:
                     aren[cands[0]] = n_old
+            # several fields with the same initial value (two `Lock()`s) renamed at once: when __init__ still assigns the same
+            # sequence of initial values, the fields correspond position by position
+            if len(rf) == len(cf) and [v for _, v in rf] == [_unrename(v, aren) for _, v in cf]:
+                for (n_old, _), (n_new, _) in zip(rf, cf):
+                    if n_old != n_new and _private(n_old) and n_old not in {x for x, _ in cf} and n_new not in {x for x, _ in rf}:
+                        aren.setdefault(n_new, n_old)
     # never rename onto / from a name that is otherwise in use
     ref_names = set()
     for ent in ref.values():
